@@ -42,6 +42,29 @@ theorem getI_neg_two {α : Type} (xs : List α) (h : xs.length > 1) : Py.getI? x
   simp only [e]
   rw [if_neg (by decide), if_pos (by omega)]
 
+/-- the canonical iteration of the loop over the references of `get_representation` at child level `lvl` -/
+def reprStep (lvl : Nat) (s : Bytes × Bytes) (r : CellInfo) : Option (Bytes × Bytes) :=
+  ((r.getDepth lvl).bind (toBytesBE? 2)).bind fun x => (r.getHash lvl).bind fun y => some (s.1 ++ x, s.2 ++ y)
+
+theorem reprStepLoop (lvl : Nat) (refs : List CellInfo) (d0 h0 : Bytes) :
+    List.foldlM (m := Option) (reprStep lvl) (d0, h0) refs =
+      (refs.mapM fun r : CellInfo => (r.getDepth lvl).bind (toBytesBE? 2)).bind fun ds => (refs.mapM fun r : CellInfo => r.getHash lvl).bind fun hs =>
+        some (d0 ++ ds.flatten, h0 ++ hs.flatten) := by
+  rw [← reprLoop]
+  exact foldlM_congr _ _ (by rintro ⟨d, h⟩ r; rfl) refs (d0, h0)
+
+/-- closes one leaf of `get_representation_eq`: the regenerated loop body is shown pointwise equal to `reprStep` by case analysis on
+the three reads (so their ORDER inside the body, and whether the two accumulators are updated before or after, does not matter) -/
+macro "repr_tail" refs:term:max lvl:term:max : tactic => `(tactic| (
+  rw [foldlM_congr _ (reprStep $lvl) (by
+        rintro ⟨d, h⟩ r
+        simp only [reprStep]
+        cases hgd : CellInfo.getDepth r $lvl <;> cases hgh : CellInfo.getHash r $lvl <;>
+          simp only [Option.bind_some, Option.bind_none] <;> (try rfl)
+        all_goals (generalize toBytesBE? 2 _ = tb; cases tb <;> simp)), reprStepLoop]
+  cases List.mapM (fun r : CellInfo => (r.getDepth $lvl).bind (toBytesBE? 2)) $refs <;>
+    cases List.mapM (fun r : CellInfo => r.getHash $lvl) $refs <;> simp [List.append_assoc]))
+
 /-- `Cell.get_representation()` of a cell whose attributes are those of the info `i` (`_descriptors = d`) over the child infos
 `refs` = the model's `representation`, whenever `d` is what the constructor stored (`get_descriptors(level_mask)`). -/
 theorem get_representation_eq (i : CellInfo) (refs : List CellInfo) (d : Bytes)
@@ -52,7 +75,6 @@ theorem get_representation_eq (i : CellInfo) (refs : List CellInfo) (d : Bytes)
   simp only [hd, get_data_bytes_eq, lm_level, get_depth_eq, get_hash_eq, Option.bind_some, Option.bind_eq_bind, Option.pure_def]
   have hm : ((i.kind = 3 ∨ i.kind = 4) : Prop) = (isMerkle i.kind = true) := by
     simp [isMerkle, kMerkleProof, kMerkleUpdate]
-  have hloop := fun lvl => reprLoop (fun r : CellInfo => (r.getDepth lvl).bind (toBytesBE? 2)) (fun r : CellInfo => r.getHash lvl) refs [] []
   by_cases hl : i.hashes.length > 1
   · rw [if_pos hl, if_pos hl, getI_neg_two _ hl]
     cases hx : i.hashes[i.hashes.length - 2]? with
@@ -61,32 +83,16 @@ theorem get_representation_eq (i : CellInfo) (refs : List CellInfo) (d : Bytes)
       simp only [Option.bind_some]
       by_cases hk : isMerkle i.kind = true
       · simp only [hm, hk, if_true, Option.bind_some]
-        have := hloop (bitLength i.mask + 1)
-        simp only [Option.bind_assoc, Option.bind_some] at this ⊢
-        rw [this]
-        cases refs.mapM (fun r : CellInfo => (r.getDepth (bitLength i.mask + 1)).bind (toBytesBE? 2)) <;>
-          cases refs.mapM (fun r : CellInfo => r.getHash (bitLength i.mask + 1)) <;> simp [List.append_assoc]
+        repr_tail refs (bitLength i.mask + 1)
       · simp only [hm, hk, if_false, Bool.false_eq_true, Option.bind_some]
-        have := hloop (bitLength i.mask)
-        simp only [Option.bind_assoc, Option.bind_some] at this ⊢
-        rw [this]
-        cases refs.mapM (fun r : CellInfo => (r.getDepth (bitLength i.mask)).bind (toBytesBE? 2)) <;>
-          cases refs.mapM (fun r : CellInfo => r.getHash (bitLength i.mask)) <;> simp [List.append_assoc]
+        repr_tail refs (bitLength i.mask)
   · rw [if_neg hl, if_neg hl]
     simp only [Option.bind_some]
     by_cases hk : isMerkle i.kind = true
     · simp only [hm, hk, if_true, Option.bind_some]
-      have := hloop (bitLength i.mask + 1)
-      simp only [Option.bind_assoc, Option.bind_some] at this ⊢
-      rw [this]
-      cases refs.mapM (fun r : CellInfo => (r.getDepth (bitLength i.mask + 1)).bind (toBytesBE? 2)) <;>
-        cases refs.mapM (fun r : CellInfo => r.getHash (bitLength i.mask + 1)) <;> simp [List.append_assoc]
+      repr_tail refs (bitLength i.mask + 1)
     · simp only [hm, hk, if_false, Bool.false_eq_true, Option.bind_some]
-      have := hloop (bitLength i.mask)
-      simp only [Option.bind_assoc, Option.bind_some] at this ⊢
-      rw [this]
-      cases refs.mapM (fun r : CellInfo => (r.getDepth (bitLength i.mask)).bind (toBytesBE? 2)) <;>
-        cases refs.mapM (fun r : CellInfo => r.getHash (bitLength i.mask)) <;> simp [List.append_assoc]
+      repr_tail refs (bitLength i.mask)
 
 /-- `Cell.calculate_representation_hash()` = `H` of the model's representation -/
 theorem calculate_representation_hash_eq (H : Bytes → Bytes) (i : CellInfo) (refs : List CellInfo) (d : Bytes)
@@ -104,7 +110,10 @@ theorem hash_prop_eq (h : Bytes) : hash_prop (self__hash := h) = some h := rfl
 theorem pyeq_eq (a b : CellInfo) : pyeq (other := b) (self__hash := a.hash) = some (a.pyEq b) := by
   unfold pyeq CellInfo.pyEq
   simp only [hash_prop_eq, Option.bind_some]
-  by_cases h : a.hash = b.hash <;> simp [h]
+  by_cases h : a.hash = b.hash
+  · simp [h]
+  · have h' : ¬ b.hash = a.hash := fun e => h e.symm
+    simp [h, h']
 
 /-- `Cell.__hash__()` = the model's `pyHash` -/
 theorem pyhash_eq (a : CellInfo) : pyhash (self__hash := a.hash) = some a.pyHash := rfl
